@@ -25,7 +25,7 @@ ASSUMPTIONS = [
 
 def shards(tier, seed):
     q = tier == "quick"
-    return [{"seed": s, "pool": 18 if q else 120, "histories": 10 if q else 150, "maxlen": 14 if q else 30, "tier": tier}
+    return [{"seed": s, "pool": 28 if q else 120, "histories": 10 if q else 150, "maxlen": 14 if q else 30, "tier": tier}
             for s in shard_seeds(seed, 16, "C11")]
 
 
